@@ -8,7 +8,7 @@ import ast
 
 from .. import cli
 from ..astx import dotted, call_name, walk_no_nested, parent, ancestors, dominating_conditions, flatten_conditions, \
-    str_const, kwarg
+    str_const, kwarg, func_params
 from ..core import norm, Inconclusive
 
 
@@ -342,7 +342,39 @@ def r14b(ctx, f, specs, groups):
                 t, _ = cli.flag_text(x.args[1])
                 if t == f"{side}_{{}}":
                     look = x
+        helper_ok = False
         if look is None:
+            # the lookup may live in a helper parametrised by the side: <var> = helper(args, '<side>')
+            for a in walk_no_nested(fn):
+                if isinstance(a, ast.Assign) and isinstance(a.value, ast.Call) and any(isinstance(x, ast.Constant) and x.value == side for x in a.value.args):
+                    r_ = ctx.model.resolve_expr(f.module, a.value.func)
+                    h = ctx.model.functions.get(r_[0][1]) if r_ and r_[0] and r_[0][0] == "func" else None
+                    if h is None:
+                        continue
+                    hp = func_params(h.node)
+                    idx = next(i_ for i_, x in enumerate(a.value.args) if isinstance(x, ast.Constant) and x.value == side)
+                    sp = hp[idx] if idx < len(hp) else None
+                    for x in walk_no_nested(h.node):
+                        if isinstance(x, ast.Call) and call_name(x) == "getattr" and len(x.args) >= 2 and isinstance(x.args[1], ast.JoinedStr):
+                            parts = x.args[1].values
+                            if len(parts) == 3 and isinstance(parts[0], ast.FormattedValue) and dotted(parts[0].value) == sp \
+                                    and isinstance(parts[1], ast.Constant) and parts[1].value == "_" and isinstance(parts[2], ast.FormattedValue):
+                                lp = next((z for z in ancestors(x) if isinstance(z, ast.For)), None)
+                                asg = parent(x)
+                                var = asg.targets[0].id if isinstance(asg, ast.Assign) and isinstance(asg.targets[0], ast.Name) else None
+                                first_wins = lp is not None and any(
+                                    isinstance(b, ast.If) and var and ast.unparse(b.test).replace(" ", "") == f"{var}isnotNone"
+                                    and any(isinstance(z, (ast.Break, ast.Return)) for z in b.body) for b in lp.body)
+                                if lp is not None and "FILETYPES_BY_TYPENAME" in ast.unparse(lp.iter) and first_wins:
+                                    helper_ok = True
+                                elif lp is not None:
+                                    problems.append(f"the lookup in {h.short} does not stop at the first option that is set (or does not iterate FILETYPES_BY_TYPENAME)")
+                                    helper_ok = None
+        if look is None and helper_ok:
+            pass
+        elif look is None and helper_ok is None:
+            pass
+        elif look is None:
             problems.append(f"no getattr(args, f'{side}_{{typename}}') lookup")
         else:
             lp = next((a for a in ancestors(look) if isinstance(a, ast.For)), None)
